@@ -124,10 +124,75 @@ class StepEvents:
             if evs:
                 self.details[n.id] = evs
 
-    def _events(self, st) -> List[Tuple[str, ast.AST]]:
+    SPECIAL = {"_apply_langevin_thermostat", "esdriver", "_compute_electronic_structure", "_after_electronic_update", "one_step", "_do_integrator_step"}
+
+    def _inline(self, call, depth):
+        """events of a small helper method `self.<name>(...)` of the same class hierarchy, with the helper's parameters replaced by the
+        caller's argument expressions (so coefficients are read in the caller's vocabulary).  Only straight-line helpers are inlined;
+        a helper with branches around phase-space writes yields the opaque event '?', which no typestate accepts."""
+        import copy
+        if depth > 2 or not (isinstance(call.func, ast.Attribute) and isinstance(call.func.value, ast.Name) and call.func.value.id == "self"):
+            return []
+        name = call.func.attr
+        if name in self.SPECIAL:
+            return []
+        cls = None
+        cur = self.func
+        while cur is not None and not isinstance(cur, ast.ClassDef):
+            cur = self.mod.parents.get(cur)
+        cls = cur
+        if cls is None:
+            return []
+        hit = self.mod.repo.find_method(self.mod, cls, name) if hasattr(self.mod, "repo") else None
+        if hit is None:
+            # search subclasses' / same-module definitions by name as a fallback
+            for c_ in self.mod.classes.values():
+                for st_ in c_.body:
+                    if isinstance(st_, ast.FunctionDef) and st_.name == name:
+                        hit = (self.mod, c_, st_)
+        if hit is None:
+            return []
+        _, _, helper = hit
+        if not any(mutated_phase_attr(st_) for st_ in ast.walk(helper) if isinstance(st_, ast.stmt)):
+            return []
+        params = [a.arg for a in helper.args.args if a.arg != "self"]
+        amap = {}
+        for pn, av in zip(params, call.args):
+            amap[pn] = av
+        for kw in call.keywords:
+            if kw.arg in params:
+                amap[kw.arg] = kw.value
+
+        class Sub(ast.NodeTransformer):
+            def visit_Name(self, n):
+                if n.id in amap and isinstance(n.ctx, ast.Load):
+                    return copy.deepcopy(amap[n.id])
+                return n
         evs = []
+        for st_ in helper.body:
+            if isinstance(st_, ast.Expr) and isinstance(st_.value, ast.Constant):
+                continue     # docstring
+            if isinstance(st_, (ast.If, ast.For, ast.While, ast.Try)) and any(mutated_phase_attr(x) for x in ast.walk(st_) if isinstance(x, ast.stmt)):
+                evs.append(("?", call))
+                continue
+            st2 = Sub().visit(copy.deepcopy(st_))
+            ast.fix_missing_locations(st2)
+            inner = st2.body if isinstance(st2, ast.With) else [st2]
+            for s2 in inner:
+                for e in self._events(s2, depth + 1):
+                    evs.append((e[0], e[1]))
+        return evs
+
+    def _events(self, st, depth=0) -> List[Tuple[str, ast.AST]]:
+        evs = []
+        inlined_any = False
         for c in calls_in(st):
             ca = callee_attr(c)
+            inl = self._inline(c, depth)
+            if inl:
+                evs.extend(inl)
+                inlined_any = True
+                continue
             if ca == "_apply_langevin_thermostat":
                 evs.append(("T", c))
             elif ca in ("esdriver", "_compute_electronic_structure") and isinstance(c.func, ast.Attribute) \
@@ -142,8 +207,9 @@ class StepEvents:
                 evs.append(("D" if how == "add_" else "x", node))
             elif attr == "acc":
                 evs.append(("A" if how == "assign" else "a", node))
-        # order events by source position inside the statement
-        evs.sort(key=lambda e: (getattr(e[1], "lineno", 0), getattr(e[1], "col_offset", 0)))
+        # order events by source position inside the statement (inlined helper events keep their own order)
+        if not inlined_any:
+            evs.sort(key=lambda e: (getattr(e[1], "lineno", 0), getattr(e[1], "col_offset", 0)))
         return evs
 
     def label(self, node: Node) -> str:
